@@ -1,6 +1,6 @@
 """C08 - locked LP returns only to its owner, only after unlocking, and in full."""
 import re
-from rules.common import (opmap, PredTrue, PredFalse, TryOk, CallTrue, EQ, VariantEdge, NONPAYABLE, no_effects, where, flat_atoms,
+from rules.common import (opmap, sends_to, PredTrue, PredFalse, TryOk, CallTrue, EQ, VariantEdge, NONPAYABLE, no_effects, where, flat_atoms,
                           all_origins, exact_origins, ops_of, show, origin_match, eq_test, pred_test, data_test, field_val,
                           effects_signature)
 from rules.C15 import POS_OWNER, SENDER_IS_PM, SENDER_IS_RECV, RECV_NONE
@@ -51,8 +51,12 @@ def pos_writes(A):
     return [e for e in A.writes() if e.extra.get("item") == "POSITIONS"]
 
 
+PENALTY_TO = {"Store(FARMS).owner", "Store(CONFIG).fee_collector_addr"}
+
+
 def penalty_calls(A):
-    return A.calls_id(r"position::helpers::create_penalty_share_msg$")
+    """penalty transfers = Sends to an active farm's owner or to the fee collector (however they are built)"""
+    return sends_to(A, PENALTY_TO)
 
 
 def run(W, chk):
@@ -92,7 +96,7 @@ def run(W, chk):
         pol = CutPolicy(cuts)
         A = W.run(fm, "execute", wd, pol)
         pc = penalty_calls(A)
-        sends = A.aggs(r"BankMsg::Send$")
+        sends = [e for e in A.aggs(r"BankMsg::Send$") if e not in pc]
         good = bool(pol.hits) and not pc and len(sends) == 1
         detail = ""
         if sends and not pc:
